@@ -79,7 +79,12 @@ func c20models() map[string]func() *PktModel {
 
 // bscHistory: a BSC client installed on chain A is updated through real MsgUpdateClient transactions (valid headers
 // by rotating sealers and one invalid header).
-func bscHistory() (string, error) {
+func bscHistory() (string, error) { return bscHistoryOrder(true) }
+
+// bscHistoryOrder: at every step a copy of the chosen valid header sealed by a key outside the validator set is submitted
+// before (badFirst) or after the genuine header. The two orders run in one process in both sequences (C20 executes its
+// histories forwards and backwards), so a verdict that depends on what the process has verified before shows up.
+func bscHistoryOrder(badFirst bool) (string, error) {
 	w := world.NewWorld(world.WorldOpts{Names: []string{A}, NoMesh: true})
 	a := w.C(A)
 	sc := bscScenario{N: 3, Epoch: 4}
@@ -109,13 +114,19 @@ func bscHistory() (string, error) {
 				}
 			}
 		}
-		bad := menu[len(menu)-1] // a corrupted header: must be refused deterministically
-		for _, s := range []bscSpec{bad, *pick} {
+		bad := *pick // same signed content, sealed by a key that is not a validator: must be refused deterministically
+		bad.Signer = 97
+		bad.Label += " corrupted:sealed-by-another-key-coinbase-kept"
+		order := []bscSpec{bad, menu[len(menu)-1], *pick}
+		if !badFirst {
+			order = []bscSpec{*pick, bad}
+		}
+		for _, s := range order {
 			h := s.build(parent)
 			msg, err := clienttypes.NewMsgUpdateClient(bscName, h, a.Relayer().Addr)
 			must(err)
 			res := w.Tx(a, a.Relayer(), msg)
-			if res.OK() {
+			if res.OK() && !strings.Contains(s.Label, "corrupted") {
 				parent = *h
 				st = bscState{Hist: append(st.Hist, s), Ghost: st.Ghost.apply(s)}
 			}
@@ -282,6 +293,7 @@ func c20Histories(tier string, pathsPerModel int, depth int) []c20history {
 		}
 	}
 	hs = append(hs, c20history{"governance-operations", govHistory}, c20history{"bsc-client-updates", bscHistory},
+		c20history{"bsc-client-updates-forged-seal-after-genuine", func() (string, error) { return bscHistoryOrder(false) }},
 		c20history{"eth-client-fork-updates", func() (string, error) { return ethHistory(false) }},
 		c20history{"eth-client-mainnet-seal", func() (string, error) { return ethHistory(true) }})
 	return hs
